@@ -226,13 +226,11 @@ def evaluate(rows, T):
         if v != "sensitive":
             failures.append(dict(kind="corr", signature="leak-table-disagrees",
                                  what=f"canary in a value the Lean table calls `{v}`: {what}", replay_body=body(r["scn"], r["backend"], what)))
-    if res_types:
-        tys = sorted(res_types)
-        manual = [t for t in tys if t in impl_by]
-        sig = ("manual-debug-leaks:" if manual else "derived-debug-unredacted:") + ",".join(tys)
-        r, what, v = res_types[tys[0]]
-        what_all = "result / configuration types print protected values with {:?}: " + "; ".join(res_types[t][1][:220] for t in tys)
-        failures.append(dict(kind="oracle", signature=sig, what=what_all, replay_body=body(r["scn"], r["backend"], what_all)))
+    # one finding per type, so that a signature stays stable when another type is repaired
+    for ty in sorted(res_types):
+        r, what, v = res_types[ty]
+        sig = ("manual-debug-leaks:" if ty in impl_by else "derived-debug-unredacted:") + ty
+        failures.append(dict(kind="oracle", signature=sig, what=what, replay_body=body(r["scn"], r["backend"], what)))
 
     fired_with_args = [f for f in fired.values() if f["site"]["args"]]
     sens_no_hit = [sid for sid, f in fired.items() if verdict.get(sid) == "sensitive" and not f["hits"]]
